@@ -22,3 +22,9 @@ package handlers
 //@ func restoreExecutableBit(path, file) (err)
 //@   pure
 //@   ensures [exec_if_recorded] err == nil && file != nil && file.IsExecutable ==> has(fsExec, path)
+
+// C06: a file inside a directory output is restored with exactly the cached bytes and the recorded executable bit
+//@ func (*DirectoryOutputHandler).downloadFile(d, ctx, digest, localPath, isExecutable, progress) (err)
+//@   requires [parent_exists] has(fsIsDir, dirOf(localPath))
+//@   ensures [content] err == nil ==> has(fsIsFile, localPath) && select(fsData, localPath) == old(select(bdata, "cas/" + digest))
+//@   ensures [mode] err == nil ==> (has(fsExec, localPath) <==> isExecutable)
